@@ -632,6 +632,23 @@ theorem inv_step_refresh (cfg : Cfg) (hcfg : cfg.checkQuestion = true) (s : St) 
       exact ⟨hn, ht⟩
   · exact hi
 
+theorem inv_step_respell (cfg : Cfg) (s : St) (k : Key) (sp : Nat) (hi : Inv s) :
+    Inv (step cfg s (.respell k sp)) := by
+  simp only [step]
+  obtain ⟨h1, h2, h3, h4, h5, h6, h7, h8, h9, h10, h11, h12, h13⟩ := hi
+  refine ⟨?_, h2, h3, h4, h5, h6, h7, h8, h9, h10, h11, h12, h13⟩
+  intro k' e hm
+  simp only [List.mem_map] at hm
+  obtain ⟨⟨k0, e0⟩, hm0, heq⟩ := hm
+  have := h1 k0 e0 hm0
+  split at heq
+  · simp only [Prod.mk.injEq] at heq
+    obtain ⟨rfl, rfl⟩ := heq
+    exact this
+  · simp only [Prod.mk.injEq] at heq
+    obtain ⟨rfl, rfl⟩ := heq
+    exact this
+
 theorem inv_step (cfg : Cfg) (hcfg : cfg.checkQuestion = true) (s : St) (a : Act) (hi : Inv s) :
     Inv (step cfg s a) := by
   cases a with
@@ -641,6 +658,7 @@ theorem inv_step (cfg : Cfg) (hcfg : cfg.checkQuestion = true) (s : St) (a : Act
   | resolve f sch a1 a2 => exact inv_step_resolve cfg hcfg s f sch a1 a2 hi
   | wake i => exact inv_step_wake cfg s i hi
   | evict k => exact inv_step_evict cfg s k hi
+  | respell k sp => exact inv_step_respell cfg s k sp hi
   | refresh i sch a1 a2 => exact inv_step_refresh cfg hcfg s i sch a1 a2 hi
 
 theorem inv_run (cfg : Cfg) (hcfg : cfg.checkQuestion = true) (as : List Act) :
